@@ -236,7 +236,10 @@ impl Property for C04 {
         let cuts2 = cuts.clone();
         let cfg2 = cfg.clone();
         let _ = verif_hooks::probe::take();
-        struct Out { a_out: Vec<u8>, b_out: Vec<u8>, a_idle_pending: usize, b_stuck: bool, dump_a: std::collections::BTreeMap<Vec<u8>, String>, dump_b: std::collections::BTreeMap<Vec<u8>, String>, steps: u64, a_closed: bool }
+        // a damaged frame at the very end of the stream: once it has been answered and the connection is quiet, a fresh,
+        // well-formed command in a read of its own must be answered again (the connection recovers)
+        let epilogue = malformed && dmg_at == cmds.len();
+        struct Out { pong: Option<bool>, a_out: Vec<u8>, b_out: Vec<u8>, a_idle_pending: usize, b_stuck: bool, dump_a: std::collections::BTreeMap<Vec<u8>, String>, dump_b: std::collections::BTreeMap<Vec<u8>, String>, steps: u64, a_closed: bool }
         let out: Out = rt::block_on(seed, async move {
             let (state_a, state_b) = match &shipped { Some(pc) => (ShardedActorState::with_perf_config(pc), ShardedActorState::with_perf_config(pc)), None => (new_state(shards), new_state(shards)) };
             let sa = StreamHandle::new(); let sb = StreamHandle::new();
@@ -288,6 +291,13 @@ impl Property for C04 {
                     if sched.ready().is_empty() { if let Step::Idle = sched.step(src, yield_bias).await { break; } }
                 }
             }
+            let mut pong = None;
+            if epilogue && !sa.0.borrow().closed_by_server && sa.pending_in() == 0 {
+                sa.deliver(b"*1\r\n$4\r\nPING\r\n");
+                for _ in 0..10_000 { if let Step::Idle = sched.step(src, yield_bias).await { break; } }
+                let (reps, _, _) = decode_all(&sa.out());
+                pong = Some(reps.last().map(|r| *r == R::Simple("PONG".into())).unwrap_or(false));
+            }
             let a_idle_pending = sa.pending_in();
             let a_closed = sa.0.borrow().closed_by_server;
             let b_stuck = b_done.get() < ncmds;
@@ -296,11 +306,12 @@ impl Property for C04 {
             let dump_b = dump_prod(&state_b).await;
             sa.close(); sb.close();
             for _ in 0..50 { if sched.is_done(0) && sched.is_done(1) { break; } let _ = sched.step(src, 0).await; }
-            Out { a_out, b_out, a_idle_pending, b_stuck, dump_a, dump_b, steps: sched.steps, a_closed }
+            Out { pong, a_out, b_out, a_idle_pending, b_stuck, dump_a, dump_b, steps: sched.steps, a_closed }
         });
         redis_sim::production::verif_hooks::clock::clear();
         for (k, v) in verif_hooks::probe::take() { rep.probe_n(k, v); }
         rep.steps = out.steps;
+        if out.pong.is_some() { rep.probe("ping_after_damaged_frame_at_end_of_stream"); }
         let (ra, _, ea) = decode_all(&out.a_out);
         let (rb, _, eb) = decode_all(&out.b_out);
         if trace {
@@ -340,6 +351,8 @@ impl Property for C04 {
             let prefix_ok = ra.len() >= before && (0..before).all(|i| { let nm = String::from_utf8_lossy(&cmds[i][0]).to_uppercase(); norm(&nm, &ra[i]) == norm(&nm, &rb[i]) });
             if !prefix_ok {
                 rep.violate("C04/malformed/earlier-replies-altered", format!("damaged frame {:?} after command #{}: replies to the earlier commands are {:?}, sent alone they are {:?}", String::from_utf8_lossy(&damaged_frame(dmg_kind)), before, ra.iter().take(before).map(|r| r.show()).collect::<Vec<_>>(), rb.iter().take(before).map(|r| r.show()).collect::<Vec<_>>()));
+            } else if out.pong == Some(false) && !out.a_closed {
+                rep.violate("C04/malformed/connection-does-not-recover", format!("damaged frame {:?} at the end of the stream was answered; the connection went quiet with nothing pending; a PING sent afterwards in a read of its own got no +PONG (all replies: {:?})", String::from_utf8_lossy(&damaged_frame(dmg_kind)), ra.iter().map(|r| r.show()).collect::<Vec<_>>()));
             } else if !ra.iter().skip(before).any(|r| r.is_err()) {
                 let key = match dmg_kind % 6 { 3 => "C04/malformed/no-error-reply/cr-without-lf-waits-forever", _ => "C04/malformed/no-error-reply" };
                 rep.violate(key, format!("damaged frame {:?} after command #{}: no error reply followed (replies after it: {:?}; handler exited: {})", String::from_utf8_lossy(&damaged_frame(dmg_kind)), before, ra.iter().skip(before).map(|r| r.show()).collect::<Vec<_>>(), out.a_closed));
